@@ -16,6 +16,10 @@ import sys
 VERIF = os.path.dirname(os.path.dirname(os.path.abspath(__file__)))
 WORK = os.path.join(VERIF, ".work", "ctl_selftest")
 VE = "vector_extensions.rs"
+LIN = "interp1d/strategies/linear.rs"
+BIL = "interp2d/strategies/bilinear.rs"
+M1 = "interp1d/mod.rs"
+M2 = "interp2d/mod.rs"
 
 REWRITES = [
     (VE, "let mid_idx = (range.1 - range.0) / 2 + range.0;", "let mid_idx = range.0 + (range.1 - range.0) / 2;"),
@@ -30,6 +34,11 @@ REWRITES = [
      "        if x >= mid_x {\n            range.0 = mid_idx;\n        } else {\n            range.1 = mid_idx;\n        }"),
     (VE, "            Likely(NotMonotonic) => Likely(NotMonotonic),\n        }\n    }\n\n    /// return", "            Likely(NotMonotonic) => self,\n        }\n    }\n\n    /// return"),
     (VE, "                let a = items[0];\n                let b = items[1];\n                state.update(a, b).short_circuit()", "                state.update(items[0], items[1]).short_circuit()"),
+    (LIN, "        let (x1, y1) = this.index_point(idx);\n        let (x2, y2) = this.index_point(idx + 1);", "        let (x2, y2) = this.index_point(idx + 1);\n        let (x1, y1) = this.index_point(idx);"),
+    (LIN, "        if !self.extrapolate && !this.is_in_range(x) {", "        if !(self.extrapolate || this.is_in_range(x)) {"),
+    (M1, "        let view = self.data.index_axis(Axis(0), index);\n        (self.x[index], view)", "        (self.x[index], self.data.index_axis(Axis(0), index))"),
+    (BIL, "        let (_, _, z12) = interpolator.index_point(x_idx, y_idx + 1);\n        let (_, _, z21) = interpolator.index_point(x_idx + 1, y_idx);",
+     "        let (_, _, z21) = interpolator.index_point(x_idx + 1, y_idx);\n        let (_, _, z12) = interpolator.index_point(x_idx, y_idx + 1);"),
 ]
 
 MUTATIONS = [
@@ -53,6 +62,17 @@ MUTATIONS = [
     (VE, "            MonotonicState::NotStrict => NotMonotonic,", "            MonotonicState::NotStrict => Rising { strict: false },"),
     (VE, "                let a = items[0];\n                let b = items[1];", "                let a = items[1];\n                let b = items[0];"),
     (VE, "        let mut range = (0usize, self.len() - 1);", "        let mut range = (1usize, self.len() - 1);"),
+    (LIN, "let (x2, y2) = this.index_point(idx + 1);", "let (x2, y2) = this.index_point(idx);"),
+    (LIN, "if !self.extrapolate && !this.is_in_range(x) {", "if !self.extrapolate && this.is_in_range(x) {"),
+    (LIN, "*t = Self::calc_frac((x1, y1), (x2, y2), x);", "*t = Self::calc_frac((x2, y1), (x1, y2), x);"),
+    (M1, "self.x[0] <= x && x <= self.x[self.x.len() - 1]", "self.x[0] <= x && x < self.x[self.x.len() - 1]"),
+    (M1, "(self.x[index], view)", "(self.x[index + 1], view)"),
+    (BIL, "if !self.extrapolate && !interpolator.is_in_y_range(y) {", "if !self.extrapolate && !interpolator.is_in_x_range(y) {"),
+    (BIL, "let (_, _, z21) = interpolator.index_point(x_idx + 1, y_idx);", "let (_, _, z21) = interpolator.index_point(x_idx, y_idx + 1);"),
+    (BIL, "let z2 = Linear::calc_frac((x1, z12), (x2, z22), x);", "let z2 = Linear::calc_frac((x1, z12), (x2, z22), y);"),
+    (M2, "(self.x.get_lower_index(x), self.y.get_lower_index(y))", "(self.x.get_lower_index(x), self.x.get_lower_index(y))"),
+    (M2, "                .index_axis(Axis(0), x_idx)\n                .index_axis_move(Axis(0), y_idx),", "                .index_axis(Axis(0), y_idx)\n                .index_axis_move(Axis(0), x_idx),"),
+    (BIL, "        if !self.extrapolate && !interpolator.is_in_x_range(x) {\n            return Err(InterpolateError::OutOfBounds(format!(\n                \"x = {x:?} is not in range\"\n            )));\n        }\n", ""),
 ]
 
 
